@@ -630,12 +630,25 @@ func runC12(t *simrt.Tape, o Opts) Outcome {
 			} else {
 				_, err = sec.WithBytesFunc(func(b []byte) ([]byte, error) { ran = true; inside(); return nil, nil })
 			}
-			disarm()
 			if closer != nil {
 				// the pending Close must complete once the reader has left, whatever failed in the release
+				// or in the Close itself (the fault plan stays armed until it has returned)
 				count(st.Oracle, "pending-close-completes")
 				s.Join(closer)
+			}
+			disarm()
+			if closer != nil {
 				if closeErr != nil {
+					// a Close that failed leaves no reader inside: the secret is not left readable
+					count(st.Oracle, "failed-close-leaves-nothing-readable")
+					if im.name == "protectedmemory" {
+						for _, r := range im.spy.Regions[firstRegion:] {
+							if im.spy.ReadableSecret(r) {
+								violate("readable-after-failed-close/"+im.name, "%s: the Close that waited for the reader failed (%v) and left the secret's pages %q with the secret still in them, although no reader is inside", desc(), closeErr, r.Prot)
+								return
+							}
+						}
+					}
 					// a Close that reports failure can be retried
 					if rerr := sec.Close(); rerr != nil {
 						violate("close-not-retriable/"+im.name, "%s: the Close that waited for the reader failed (%v) and its retry failed too: %v", desc(), closeErr, rerr)
@@ -687,6 +700,15 @@ func runC12(t *simrt.Tape, o Opts) Outcome {
 				// Close swallowed a failure: then everything must really be released
 				checkNoRemains("Close that reported success")
 				return
+			}
+			if fired != "" && err != nil && im.name == "protectedmemory" {
+				count(st.Oracle, "failed-close-leaves-nothing-readable")
+				for _, r := range im.spy.Regions[firstRegion:] {
+					if im.spy.ReadableSecret(r) {
+						violate("readable-after-failed-close/"+im.name, "%s: the failed Close left the secret's pages %q with the secret still in them", desc(), r.Prot)
+						return
+					}
+				}
 			}
 			if fired != "" {
 				// between the failed Close and its retry the secret is either refused or intact, never wrong bytes
